@@ -37,7 +37,7 @@ Init == /\ lo \in MinV..MaxV /\ hi \in lo..MaxV /\ plo \in MinV..MaxV /\ phi \in
 (* prover: attest(). ok = a proof came out. A value inside the prover's range must yield a proof;   *)
 (* for a value outside it the property only demands that nothing acceptable comes out.              *)
 Build(ok) == /\ built = "no"
-             /\ ProductPositive => ok
+             /\ (ProductPositive /\ SameRange) => ok     \* demanded of the honest prover (the verifier's format) only
              /\ built' = IF ok THEN "yes" ELSE "failed"
              /\ UNCHANGED <<lo, hi, plo, phi, v, rounds, verdict>>
 
@@ -64,7 +64,7 @@ Spec == Init /\ [][Next]_vars
 
 TypeOK == built \in {"no", "yes", "failed"} /\ verdict \in {"none", "accepted", "rejected"} /\ rounds \in 0..3
 BuildableIffInside == ProductPositive <=> In(v, plo, phi)
-InsideBuilds == In(v, plo, phi) => built # "failed"
+InsideBuilds == (SameRange /\ In(v, lo, hi)) => built # "failed"
 InsideAccepted == (verdict # "none" /\ rounds >= 1 /\ SameRange /\ In(v, lo, hi)) => verdict = "accepted"
 OutsideNeverAccepted == ~In(v, lo, hi) => verdict # "accepted"
 =============================================================================
